@@ -68,8 +68,12 @@ def generate(seed: int, tier: str = "quick") -> dict:
     markets = []
     if mode in ("v1", "both"):
         markets.append(G.gen_gmx1_market(rw, "glp0", n, prices, tokens=dict(toks)))
+        rr = RNG.sub(seed, "again")
+        if rr.random() < 0.2:
+            markets[-1]["registered_again"] = rr.sample(sorted(markets[-1]["tokens"]), rr.choice([1, 2]))
     if mode in ("v2", "both"):
-        markets.append(G.gen_gmx2_market(rw, "gm0", n, prices, long=pool2[0], short=pool2[1], config=G.gen_gmx2_config(rw)))
+        markets.append(G.gen_gmx2_market(rw, "gm0", n, prices, long=pool2[0], short=pool2[1], config=G.gen_gmx2_config(rw),
+                                         no_virtual_inventory=RNG.sub(seed, "novirt").random() < 0.2))
     wealth = rw.choice(["rich"] * 6 + ["modest"] * 2 + ["whale"])
     assets = {}
     for t, d in toks.items():
